@@ -48,6 +48,7 @@ type Spec struct {
 	Outside   string            `json:"outside"`
 	Assume    []string          `json:"assumptions"`
 	Clock     []string          `json:"clock"` // package dirs whose time.Now() calls are rewritten for native replay
+	Sched     []string          `json:"sched"` // package dirs instrumented with scheduling points for native schedule replay
 }
 
 type KnownFinding struct {
@@ -85,6 +86,7 @@ type loaded struct {
 	coap  map[*ssa.Package]bool
 	dur   time.Duration
 	names map[string]string // dir -> package name
+	byDir map[string]*packages.Package
 }
 
 func pkgNameOf(file string) (string, error) {
@@ -96,7 +98,7 @@ func pkgNameOf(file string) (string, error) {
 	return f.Name.Name, nil
 }
 
-func loadProgram(repo, verif string, spec *Spec) (*loaded, error) {
+func loadProgram(repo, verif string, spec *Spec, syntaxOnly bool) (*loaded, error) {
 	start := time.Now()
 	overlay := map[string][]byte{}
 	var patterns []string
@@ -147,9 +149,22 @@ func loadProgram(repo, verif string, spec *Spec) (*loaded, error) {
 	if nerr > 0 {
 		return nil, fmt.Errorf("%d load errors in go-coap packages (does /repo compile?)", nerr)
 	}
+	byDir := map[string]*packages.Package{}
+	packages.Visit(initial, nil, func(p *packages.Package) {
+		if strings.HasPrefix(p.PkgPath, modulePath) {
+			rel := strings.TrimPrefix(strings.TrimPrefix(p.PkgPath, modulePath), "/")
+			if rel == "" {
+				rel = "."
+			}
+			byDir[rel] = p
+		}
+	})
+	if syntaxOnly {
+		return &loaded{byDir: byDir, names: names}, nil
+	}
 	prog, _ := ssautil.AllPackages(initial, ssa.InstantiateGenerics)
 	prog.Build()
-	ld := &loaded{prog: prog, pkgs: map[string]*ssa.Package{}, coap: map[*ssa.Package]bool{}, names: names}
+	ld := &loaded{prog: prog, pkgs: map[string]*ssa.Package{}, coap: map[*ssa.Package]bool{}, names: names, byDir: byDir}
 	for _, p := range prog.AllPackages() {
 		if strings.HasPrefix(p.Pkg.Path(), modulePath) {
 			ld.coap[p] = true
@@ -225,7 +240,7 @@ func cmdRun(args []string) int {
 		}
 	}
 
-	ld, err := loadProgram(*repo, *verif, &spec)
+	ld, err := loadProgram(*repo, *verif, &spec, false)
 	if err != nil {
 		fmt.Fprintln(os.Stderr, "load:", err)
 		return 2
